@@ -2,6 +2,7 @@ package kit
 
 import (
 	"sync"
+	"sync/atomic"
 	"time"
 
 	"github.com/pion/interceptor"
@@ -73,7 +74,13 @@ type RTCPSink struct {
 	FailAt map[int]error
 	OnCall func(SentRTCP)
 	failIf func(SentRTCP) error
+	// Delay makes every write take this long (a slow transport), so that "still inside a write" is observable.
+	Delay    time.Duration
+	inFlight atomic.Int32
 }
+
+// InFlight returns the number of Write calls that have started but not yet returned.
+func (s *RTCPSink) InFlight() int { return int(s.inFlight.Load()) }
 
 // SetFailIf installs (or clears) a predicate that makes matching writes fail; other goroutines' writes are unaffected.
 func (s *RTCPSink) SetFailIf(f func(SentRTCP) error) {
@@ -84,6 +91,11 @@ func (s *RTCPSink) SetFailIf(f func(SentRTCP) error) {
 
 // Write implements interceptor.RTCPWriter.
 func (s *RTCPSink) Write(pkts []rtcp.Packet, _ interceptor.Attributes) (int, error) {
+	s.inFlight.Add(1)
+	defer s.inFlight.Add(-1)
+	if s.Delay > 0 {
+		defer time.Sleep(s.Delay)
+	}
 	rec := SentRTCP{Pkts: append([]rtcp.Packet(nil), pkts...), At: time.Now()}
 	n := 0
 	for _, p := range pkts {
